@@ -15,6 +15,7 @@ EXTENDS MqttLen, FiniteSets, TLC
 F(tag, n) == [tag |-> tag, n |-> n]
 Opt(S) == {<<>>} \cup {<<x>> : x \in S}
 Has(o) == o # <<>>
+IsFailRc(rc) == rc >= 128
 B2N(b) == IF b THEN 1 ELSE 0
 
 \* a property as it appears in a packet: [id, k, i, s, s2, q]  (k = kind; i = integer value; s, s2 = fillers; q = four bytes)
